@@ -792,6 +792,19 @@ pub fn run_c02(ctx: &Ctx) -> i32 {
                 if !d.is_empty() || !bemodel::check(&m).is_empty() {
                     ctx.violation("closure:generated-project", &format!("generated project converts to a model that is not closed: {:?}", d.iter().take(3).collect::<Vec<_>>()), json!({"spec": format!("{:?}", s)}));
                 }
+                // every space of an intact project keeps both links, to the definitions it names (the two names differ
+                // on the upper storeys)
+                for k in 0..s.storeys {
+                    let sp = crate::projgen::space_name(k);
+                    let Some(spc) = m.spaces.iter().find(|x| x.name == sp) else { continue };
+                    let loads = spc.loads.and_then(|id| m.loads.iter().find(|l| l.id == id)).map(|l| l.name.clone());
+                    let thermostat = spc.thermostat.and_then(|id| m.thermostats.iter().find(|l| l.id == id)).map(|l| l.name.clone());
+                    let want_t = if k == 0 { "Residencial" } else { crate::projgen::SECOND_SYSTEM_CONDITIONS };
+                    if loads.as_deref() != Some("Residencial") || thermostat.as_deref() != Some(want_t) {
+                        ctx.violation("links:generated-project:space-conditions", &format!("space {} names the loads \"Residencial\" and the set-points {:?} but the model links it to loads {:?} and thermostat {:?}", sp, want_t, loads, thermostat), json!({"spec": format!("{:?}", s), "space": sp}));
+                        break;
+                    }
+                }
             }
             corpus::Outcome::Err(e) => ctx.violation("convert:generated-project-rejected", &e, json!({"spec": format!("{:?}", s)})),
             corpus::Outcome::Panic(p) => ctx.violation(&format!("panic:{}", panic_key(&p)), &p, json!({"spec": format!("{:?}", s)})),
@@ -1119,7 +1132,7 @@ pub fn run_c02(ctx: &Ctx) -> i32 {
     ctx.sample(json!({"part": "closure", "file": "cubo.ctehexml", "oracle": "ids unique per collection, 17 reference kinds resolve, no nil id, bemodel::check empty"}));
     ctx.finish(
         "fault_enumeration",
-        "(a) every shipped project (12 .ctehexml with catalog, 56 legacy .cte with catalog + default general data) and generated projects: a successful conversion must be referentially closed; the same closure oracle on every numeric token -> 0 and -> -1 of the smallest project of each format (3 smallest in thorough) (ids unique per collection, 17 reference kinds resolve, no nil id) and silent under bemodel::check; (b') every ordered pair of definition kinds (day/week/year schedule, material, glazing, frame, gap, polygon): a referenced definition of one kind renamed, with its references, to the name of a definition of the other kind (cubo and one generated project) must convert to the same closed model or fail; (d) on the parsed project data of the smallest projects of each format and generated ones: every wall's space / construction / adjacent-space name, every window's wall / construction name redirected to an unknown name (windows also with their shading devices removed), every wall and space renamed under its referrers, every construction, used material / glazing / frame and every schedule removed - the conversion must fail or give a closed model; (e) a WINDOW block moved behind the first block of every other type and to the beginning of the document; (f) every 'definition removed' variant of the smallest projects converted as the only conversion of a fresh process and straight after the intact project in one process: same verdict; (c) every project obtained by renaming one reference occurrence (attribute keys POLYGON, CONSTRUCTION, LAYERS, MATERIAL, GLASS-TYPE, NAME-FRAME, GAP, SPACE-/SYSTEM-CONDITIONS, NEXT-TO, DAY-/WEEK-SCHEDULES, *-SCHEDULE, *-TEMP-SCH, SPACE-TYPE) or removing one definition block (quick: the 3 smallest projects of each format; thorough: all): the outcome must be an error, or - when the broken name was not needed - a closed model with exactly the same census of elements and resolved links as the intact project; a model with missing/nil links, a silently dropped link, a panic or a timeout is a violation; non-trivial = conversion outcome differs from plain success",
+        "(a) every shipped project (12 .ctehexml with catalog, 56 legacy .cte with catalog + default general data) and generated projects: a successful conversion must be referentially closed (generated ones also: every space linked to the loads and the set-points it names, which carry different names on the upper storeys); the same closure oracle on every numeric token -> 0 and -> -1 of the smallest project of each format (3 smallest in thorough) (ids unique per collection, 17 reference kinds resolve, no nil id) and silent under bemodel::check; (b') every ordered pair of definition kinds (day/week/year schedule, material, glazing, frame, gap, polygon): a referenced definition of one kind renamed, with its references, to the name of a definition of the other kind (cubo and one generated project) must convert to the same closed model or fail; (d) on the parsed project data of the smallest projects of each format and generated ones: every wall's space / construction / adjacent-space name, every window's wall / construction name redirected to an unknown name (windows also with their shading devices removed), every wall and space renamed under its referrers, every construction, used material / glazing / frame and every schedule removed - the conversion must fail or give a closed model; (e) a WINDOW block moved behind the first block of every other type and to the beginning of the document; (f) every 'definition removed' variant of the smallest projects converted as the only conversion of a fresh process and straight after the intact project in one process: same verdict; (c) every project obtained by renaming one reference occurrence (attribute keys POLYGON, CONSTRUCTION, LAYERS, MATERIAL, GLASS-TYPE, NAME-FRAME, GAP, SPACE-/SYSTEM-CONDITIONS, NEXT-TO, DAY-/WEEK-SCHEDULES, *-SCHEDULE, *-TEMP-SCH, SPACE-TYPE) or removing one definition block (quick: the 3 smallest projects of each format; thorough: all): the outcome must be an error, or - when the broken name was not needed - a closed model with exactly the same census of elements and resolved links as the intact project; a model with missing/nil links, a silently dropped link, a panic or a timeout is a violation; non-trivial = conversion outcome differs from plain success",
         true,
         json!({}),
     )
